@@ -11,6 +11,18 @@ CLAIMED = {
          "Structural necessary conditions, decided on every run from /repo's source: every squeezed handshake MAC is compared full-width and a mismatch is fatal; the certificate verifier's failure is fatal and its result is used only after success; the configured policy is attached on every provenance of a handshake state; the verifier is fail-closed; the verified key is bound into a checked MAC; connections are published / become usable only after authentication. Each is a condition whose violation lets some counterpart behaviour in the property's quantifier break the statement; the converse (cryptographic soundness) is not claimed.",
          "Trusts go/types+go/ssa, the role tables in the checker (which functions are handshake readers, which field is the MAC buffer), and that package-level error sentinels are non-nil. No pointer analysis: identity by access paths. Does not decide cryptographic strength or the correctness of certs/authkeys (C04).",
          "DESIGN.md §3 C01"),
+ "C05": ("decision-table path analysis over go/ssa (no swallowed error on a success path, membership atom, same-subject arguments), dominance with polarity, who-may-call/who-may-access",
+         "Structural necessary conditions: AuthorizeKey / ParseAuthorizedKeys / ParseDHPublicKey / Allowed are fail-closed on every path; checkAuthorization admits only after a nil key check or an enabled, nil grant check for the same user and the transport-authenticated key; grants are deleted when handed out; the transport key set is fed only after nil-checked parsing. Violating any of them lets some file content / history in the quantifier widen access.",
+         "Trusts go/ssa and the role tables (which callee is the membership test, which field is the enable flag). File-system behaviour is not modelled.",
+         "DESIGN.md §3 C05"),
+ "C06": ("path analysis over go/ssa with a closure summary (approval callback returns checkIntent's verdict unchanged), per-path counting of answer writes, def-use identity of the forwarded value, decision tables on the answer readers",
+         "Structural necessary conditions: every forward of an intent is preceded on its path by a nil approval of that same value (directly or through the handshake callback, which hopclient installs and whose failure is fatal); exactly one answer per request on every path; confirmations only after the target's accepted answer / after checkIntent and addAuthGrant returned nil.",
+         "Trusts go/ssa, the role tables (approval field, connection fields). What a user-supplied callback decides, and the ci==nil default, are outside the claim.",
+         "DESIGN.md §3 C06"),
+ "C07": ("decision-table path analysis with a time-order atom theory (Before/After/Equal normalised to < and >=), call-graph reachability of effect sinks from dispatched handlers, guarded-state must-dataflow (usingAuthGrant==false or checkCmd==nil), who-may-write",
+         "Structural necessary conditions: checkCmd honours a grant only with StartTime <= now < ExpTime, matching kind and identical command text on one element, and deletes it; every handler that sess.start dispatches and that reaches a process start / dial / listen / grant issuing is guarded for grant sessions; consumed grants take their key out of the transport key set; checkIntent is fail-closed.",
+         "Trusts go/ssa, VTA call graph, the sink list (os/exec, pty, net.Dial*/Listen*, StartTargetInstance). Wall-clock behaviour between check and use is not decided.",
+         "DESIGN.md §3 C07"),
 }
 
 NOT_APPLICABLE = {
